@@ -688,6 +688,7 @@ inline ColoquinteParameters genParams(Rng &rng, bool hostileDetailed, std::strin
     params.detailed.reorderingNbRows = (int)rng.range(1, 3);
     params.detailed.reorderingMaxNbCells = (int)rng.range(0, rng.chance(0.3) ? 7 : 5);
     if (rng.chance(0.2)) params.detailed.reorderingNbRows = 4;
+    if (params.detailed.reorderingNbRows >= 3) params.detailed.reorderingMaxNbCells = std::min(params.detailed.reorderingMaxNbCells, 6);  // 7 cells over 3-4 rows: minutes of exhaustive search
     params.detailed.shiftNbRows = (int)rng.range(1, 6);
     params.detailed.shiftMaxNbCells = (int)rng.range(0, 40);
     params.detailed.nbPasses = (int)rng.range(0, 3);
